@@ -342,6 +342,10 @@ func main() {
 	rep := report.New("C03", "exploration")
 	rep.Rule = "every interleaving (preemption-bounded DFS over all sync/atomic/map/cond operations) of each scenario on the real media layer; distinct = distinct (scenario, observation) outcomes"
 	scs := scenarios(rep.Thorough())
+	runner.FineP = 1 // statement-level points in the files of fine.txt
+	if rep.Thorough() {
+		runner.FineP = 2
+	}
 	runner.Run(rep, scs)
 	rep.Finish()
 }
